@@ -360,7 +360,8 @@ def pipeline(seed, tier):
         batch.append((ser(p), m))
     for p, m in gen.gen_chains_random(seed + 1, sz["chains"]) + gen.gen_chains_exhaustive(seed + 2, sz["chain_exh"]):
         batch.append((ser(p), m))
-    for p, m in gen.gen_skeletons(sz["skel"]) + (gen.gen_name_triples() if sz["names"] else []) + gen.gen_tiny(sz["tiny"]):
+    for p, m in gen.gen_skeletons(sz["skel"]) + (gen.gen_name_triples() if sz["names"] else []) + gen.gen_tiny(sz["tiny"]) \
+            + (gen.gen_deep() if tier == "thorough" else gen.gen_deep()[:1] + gen.gen_deep()[3:4]):
         batch.append((ser(p), m))
     # derived programs (C16: permutations; C17: stubbed bodies), linked to their base by index
     import random as _random
